@@ -67,7 +67,17 @@ Section Oracles.
   Theorem C01_unclosed_arith_cmd : forall c ss fs ks, let t := T $"arith-cmd" ss fs ks in
     unclosed_arith (attr_d "raw_content" t) = true -> walk c t <> Allow.
   Proof. exact (unclosed_arith_cmd_asks simple astr mredir cdres injrisk rulematch). Qed.
+
+  (* an approved simple command has no word in its assignment prefix that sets a variable deciding WHICH program runs
+     or making it load other code (PATH, LD_PRELOAD, BASH_ENV, IFS, PAGER, ...; a PATH assigned system directories only
+     is the one exception): the command bash runs is the one that was judged *)
+  Theorem C01_execution_variables : forall c ss fs ks, let t := T $"command" ss fs ks in
+    walk c t = Allow ->
+    forall i w, nth_error (cmd_words t) i = Some w ->
+      (i < length (cmd_words t) - length (skip_assignments (cmd_words t)))%nat -> sets_execution_var w = false.
+  Proof. exact (approved_sets_no_execution_var simple astr mredir cdres injrisk rulematch). Qed.
 End Oracles.
+Print Assumptions C01_execution_variables.
 Print Assumptions C01_unclosed_arith_word.
 Print Assumptions C01_unclosed_arith_cmd.
 Print Assumptions C01_lost_substitution.
@@ -117,3 +127,10 @@ Example C01_example :
   walk (fun _ ws => if mem_str (hd [] ws) [$"ls"; $"echo"] then Allow else Ask)
        (fun _ _ => Ask) (fun _ _ => None) (fun _ x => x) (fun _ _ => false) (fun _ _ => false) ([47], false) t = Allow.
 Proof. vm_compute. split; [tauto|reflexivity]. Qed.
+
+(* non-vacuity of C01_execution_variables: the predicate on the spellings that matter *)
+Example C01_execution_variables_example :
+  map sets_execution_var [$"PATH=/tmp/x"; $"PATH=/usr/bin:/bin"; $"PATH+=:/bin"; $"PATH=/bin:"; $"LD_PRELOAD=./x.so"; $"BASH_ENV=f"; $"IFS=/";
+                          $"MYPATH=/x"; $"PATHX=1"; $"FOO=PATH=/x"; $"PATH[0]=x"; $"PATH"]
+  = [true; false; true; true; true; true; true; false; false; false; false; false].
+Proof. vm_compute. reflexivity. Qed.
